@@ -249,7 +249,7 @@ def c05(sc, V):
             od = any(c.get("on_demand") for c in sc["watchers"]) and any(x.kind() == "sockev" and x.op[1] for x in V[:s.n])
             f.append({"sig": "on-demand-start-overlap" if od else "event-loop-stalled", "step": s.n,
                       "msg": "event loop blocked for %d ms in one step" % s.slept})
-        if s.kind() == "req" and s.cmd() in ("status", "list", "numprocesses", "numwatchers", "options", "globaloptions") \
+        if s.kind() == "req" and s.cmd() in ("status", "list", "numprocesses", "numwatchers", "options", "globaloptions", "stats") \
                 and not s.before.blocked and not _ctl_closed_before(V, s.n) and s.op[1].get("msg_type") != "cast":
             if len(s.of("rep")) != 1:
                 f.append({"sig": "readonly-not-answered-at-once", "step": s.n, "msg": "%s got %d replies in its own step" % (s.cmd(), len(s.of("rep")))})
@@ -408,6 +408,11 @@ def c15(sc, V):
                     got = sorted(dec(x.split(":")[0]).lower() for x in body[len("statuses="):].split(",") if x)
                     if got != lows:
                         f.append({"sig": "statuses-disagree", "step": s.n, "msg": "%r vs %r" % (got, lows)})
+                if s.cmd() == "stats" and body.startswith("infos=") and "name" not in s.props():
+                    got = sorted(dec(x.split(":")[0]).lower() for x in body[len("infos="):].split(";") if x)
+                    if got != lows:
+                        f.append({"sig": "stats-disagrees", "step": s.n,
+                                  "msg": "stats describes the watchers %r, the directory has %r" % (got, lows)})
                 p = s.props()
                 if s.cmd() == "add" and r[3] == "ok" and isinstance(p.get("name"), str):
                     if p["name"].lower() not in a.names:
